@@ -20,6 +20,12 @@ func TestC16Enum(t *testing.T) {
 	C16Mth.RunCases(t, "all one-edit neighbours (256-byte alphabet) of the method names", true, func(emit func(CaseName) bool) {
 		enumOneEdit(mthTableNames(), emit)
 	})
+	C16Hdr.RunCases(t, "every header name + every 4-byte suffix over {NUL,SP,-,A,a,e,E,0xff} and 8 equal bytes (same hash bucket)", true, func(emit func(CaseName) bool) {
+		enumPadded(hdrTableNames(), emit)
+	})
+	C16Mth.RunCases(t, "every method name + every 4-byte suffix over {NUL,SP,-,A,a,e,E,0xff} and 8 equal bytes (same hash bucket)", true, func(emit func(CaseName) bool) {
+		enumPadded(mthTableNames(), emit)
+	})
 	C16Hdr.RunShards(t, "GetHdrType on all byte strings of length 0..3", maxLen >= 3, 64, func(s int, emit func(CaseName) bool) {
 		enumShort(maxLen, s, 64, emit)
 	})
